@@ -128,7 +128,7 @@ package app
 // succeeded, and then with exactly the text the safeguard accepted; success is reported only after that write; every
 // failure before it leaves the disk untouched and returns no result.
 //@ func (*context).ReconcileFile
-//@ requires ctx != nil && nonnil(ctx.parser)
+//@ requires ctx != nil && nonnil(ctx.parser) && forall(i, 0, len(reconcile), reconcile[i] != nil)
 //@ noframe
 //@ before WriteToFile assert isnil(err) && isnil(aErr) && result != nil && txt.valid(result.AllSerialised) && writes() == old(writes())
 //@ ensures isnil(result1) == (result0 != nil)
